@@ -179,6 +179,13 @@ where
     }
 }
 
+#[cfg(bma400_verif)]
+impl WakeupIntConfig {
+    pub(crate) fn verif_regs(&self) -> [(u8, u8); 5] {
+        verif_regs!(self; wkup_int_config0, wkup_int_config1, wkup_int_config2, wkup_int_config3, wkup_int_config4)
+    }
+}
+
 #[cfg(test)]
 mod tests {
     use super::*;
